@@ -447,6 +447,64 @@ def run_lazy(case) -> dict:
     return r
 
 
+def run_deep(case) -> dict:
+    """One task blocked inside k statically nested nurseries (optionally each wrapped in a cancel scope), each with one child."""
+    import warnings
+
+    import stackscope
+    import trio
+
+    k, wrap = case["k_"], case.get("wrap", False)
+    lines = ["async def deep_task(trio, kid, box):"]
+    ind = "    "
+    for i in range(k):
+        if wrap:
+            lines.append(f"{ind}with trio.CancelScope():")
+            ind += "    "
+        lines.append(f"{ind}async with trio.open_nursery() as n{i}:")
+        ind += "    "
+        lines.append(f"{ind}n{i}.start_soon(kid, name='kid{i}')")
+    lines.append(f"{ind}box['nurseries'] = [{', '.join(f'n{i}' for i in range(k))}]")
+    lines.append(f"{ind}await trio.sleep_forever()")
+    ns: dict = {}
+    exec("\n".join(lines) + "\n", ns)
+    res: dict = {}
+    box: dict = {}
+
+    async def kid():
+        await trio.sleep_forever()
+
+    async def main():
+        async with trio.open_nursery() as outer:
+            outer.start_soon(ns["deep_task"], trio, kid, box, name="deep")
+            await trio.sleep(0.02)
+            task = [t for t in outer.child_tasks if t.name == "deep"][0]
+            with warnings.catch_warnings(record=True) as w:
+                warnings.simplefilter("always")
+                st = stackscope.extract(task, recurse_child_tasks=True)
+            res["warnings"] = [str(x.message)[:200] for x in w]
+            fr = [f for f in st.frames if f.funcname == "deep_task"]
+            got = [c.obj for f in fr for c in f.contexts if isinstance(c.obj, trio.Nursery)]
+            kids = [sorted(getattr(ch.root, "name", "?") for ch in c.children if isinstance(ch, stackscope.Stack))
+                    for f in fr for c in f.contexts if isinstance(c.obj, trio.Nursery)]
+            res["got"] = [box["nurseries"].index(n) if n in box["nurseries"] else -1 for n in got]
+            res["kids"] = kids
+            res["error"] = repr(st.error) if st.error is not None else None
+            outer.cancel_scope.cancel()
+
+    trio.run(main)
+    problems = []
+    if res.get("got") != list(range(k)):
+        problems.append(f"a task inside {k} statically nested nurseries{' (each in a cancel scope)' if wrap else ''}: its frame shows the "
+                        f"nurseries {res.get('got')}, Trio says it has opened {list(range(k))}")
+    elif res.get("kids") != [[f"kid{i}"] for i in range(k)]:
+        problems.append(f"{k} nested nurseries: child tasks per nursery {res.get('kids')}")
+    if res.get("error"):
+        problems.append(f"error {res['error']}")
+    res["problems"] = problems
+    return res
+
+
 def run_limiter(case) -> dict:
     """Sibling tasks share a thread limiter that is exhausted: a task whose to_thread.run_sync call is still queued for the
     limiter has no worker thread — its stack must not show another task's thread frames."""
@@ -539,6 +597,9 @@ class C14(PropCheck):
         for plan in ("same", "cross", "remote"):
             for m in ((1, 2) if tier == "quick" else (1, 2, 3)):
                 out.append({"k": "two_runs", "plan": plan, "hops": m, "end_in_thread": (m + len(plan)) % 2 == 0})
+        # one frame holding many nurseries (the number of blocks a frame may hold is bounded by the compiler only)
+        for k, wrap in ((11, False), (13, False), (18, False), (7, True)):
+            out.append({"k": "deep", "k_": k, "wrap": wrap})
         # the Trio glue is installed by the first extraction after `import trio`, wherever that happens (fresh interpreters)
         for first in ("outside", "before_run", "before_io_wait", "after_task_step", "task", "thread"):
             out.append({"k": "lazy", "first": first})
@@ -559,6 +620,8 @@ class C14(PropCheck):
             return run_two_runs(case)
         if case["k"] == "lazy":
             return run_lazy(case)
+        if case["k"] == "deep":
+            return run_deep(case)
         return run_hops(case)
 
     def model_line(self, case):
@@ -593,7 +656,7 @@ class C14(PropCheck):
 
     def nontrivial_key(self, case, real):
         s = json.dumps(case, sort_keys=True)
-        if '"children": [{' in s or case.get("hops", 0) > 0 or case["k"] == "lazy":
+        if '"children": [{' in s or case.get("hops", 0) > 0 or case["k"] in ("lazy", "deep"):
             return s
         return None
 
